@@ -1,7 +1,9 @@
 ------------------------- MODULE ServerChoice_Trace -------------------------
 (* Judges what the live proxy did for one player per run.  Lines:
      {"ev":"reset","forced":{"has":bool,"key":[code points],"list":[names]},"try":[names],
-      "vh":[code points of the client's handshake address],"reg":[registered names],"port":n}
+      "vh":[code points of the client's handshake address],"reg":[registered names],"port":n,
+      "renamed":[names]}   servers of reg that were re-registered through the API under an upper-case
+                           name; names are case-insensitive, servers are identified by their backend
      {"ev":"attempt","server":s,"fail":"kl"|"kp"|"kpi"|"","inflight":x}
           the player's next connection arrived at fake backend s, which then failed it in manner
           fail ("" = accepted for good); inflight = the server whose (stalled) connection request
